@@ -315,6 +315,14 @@ func MainR(F *RFuncs) {
 				for _, c := range NilArgConfigs(3) {
 					runCfg(c, reps)
 				}
+				for _, c := range DealerConfigs() {
+					runCfg(c, reps)
+				}
+			}
+			if sys == "fmap" {
+				for _, c := range LockStepConfigs() {
+					runCfg(c, reps)
+				}
 			}
 			if sys != "do" {
 				for _, c := range ZeroConfigs(sys) {
